@@ -951,6 +951,29 @@ def _evaluation_errors_as_value_error(func):
     return wrapper
 
 
+def _is_cheap_to_compute(op: ast.operator, left: object, right: object) -> bool:
+    """Check that the result of a binary operation is small, like the constant folding of CPython does.
+
+    Without this, evaluating e.g. 9 ** 9 ** 9 ** 9 or "a" * 10 ** 10 never finishes.
+    """
+    max_int_bits = 128
+    max_length = 4096
+    if isinstance(left, int) and isinstance(right, int):
+        if isinstance(op, ast.Pow):
+            return right <= 0 or left.bit_length() <= max_int_bits // right
+        if isinstance(op, ast.LShift):
+            return right <= max_int_bits and left.bit_length() <= max_int_bits - right
+        if isinstance(op, ast.Mult):
+            return left.bit_length() + right.bit_length() <= max_int_bits
+
+    if isinstance(op, ast.Mult):
+        for sequence, count in ((left, right), (right, left)):
+            if isinstance(sequence, (str, bytes, list, tuple)) and isinstance(count, int):
+                return len(sequence) * count <= max_length
+
+    return True
+
+
 @_evaluation_errors_as_value_error
 def literal_value(node: ast.AST) -> bool:
     if has_side_effect(node, safe_callable_whitelist=constants.SAFE_CALLABLES):
@@ -961,6 +984,8 @@ def literal_value(node: ast.AST) -> bool:
     ):
         left = literal_value(node.left)
         right = literal_value(node.right)
+        if not _is_cheap_to_compute(node.op, left, right):
+            raise ValueError("Cannot find a deterministic value without computing a huge one")
         return constants.COMPARISON_OPERATORS[type(node.op)](left, right)
 
     if match_template(node, ast.Compare(left=object, ops={object}, comparators={object})):
